@@ -256,6 +256,9 @@ def run(ctx, R, tier):
     guard(F, R)
     first(F, R)
     once(F, R)
+    # every route a builder creates has its command writer in the handle: one route per send track (a builder method stores what it
+    # was given, keyed as before - the C02 builder rule)
+    _builders(F, R)
     write_unconditional(F, R)
     payload_verbatim(F, R)
     # commands of different kinds do not interfere (the clock's reset does not undo a start): the C05 rule
@@ -655,6 +658,11 @@ def write_unconditional(F, R, rule='B.C07.write', fn_filter=None, floor=60):
                 '%s can return without writing its command (after %s): a command issued on the handle is dropped on that path'
                 % (b.path, bad), detail={'writes': len(ws)}, where=b.file)
     R.floor(rule, n, floor)
+
+
+def _builders(F, R):
+    from .c02 import builders
+    builders(F, R)
 
 
 def once(F, R):
